@@ -39,13 +39,13 @@ KS_POOL = ["ks", "ks1", "My_KS", "k", "system_x", "K9", "a_b_c", "123", "007", "
 
 def gen_tree(rng, tt, depth, pos="top", allow_unicode=0.03):
     """pos: 'top' | 'inner' | 'key' (set element / map key: keep values orderable) | 'composite'."""
-    r = rng.random()
-    if depth <= 1 or r < 0.30:
+    if depth <= 1 or rng.random() < (0.04 if pos == "top" else 0.30):
         m, c = rng.choice(tt.LEAVES)
         return ("leaf", m, c)
-    if pos == "top" and r < 0.36:
+    r = rng.random()
+    if pos == "top" and r < 0.08:
         return ("reversed", gen_tree(rng, tt, depth, "inner", allow_unicode))   # wrappers do not count as a level
-    if pos == "top" and r < 0.42:
+    if pos == "top" and r < 0.16:
         subs = []
         for _ in range(rng.randint(1, 4)):
             m, c = rng.choice(tt.LEAVES)
@@ -408,10 +408,10 @@ def check_descriptor(ctx, rng, T, util, tt, tree):
             ctx.violation("parsed-type-deserializes-differently", "parsed composite read %r, directly built read %r" % (v2, v1), witness)
 
 
-def gen_cql_tree(rng, tt, depth, exotic):
+def gen_cql_tree(rng, tt, depth, exotic, top=False):
     """Trees for CQL type strings (system_schema notation): frozen anywhere, user types by (possibly quoted) name."""
     r = rng.random()
-    if depth <= 1 or r < 0.3:
+    if depth <= 1 or r < (0.06 if top else 0.3):
         if rng.random() < 0.25:
             q = rng.random()
             if exotic and q < 0.5:
@@ -582,7 +582,7 @@ def run(ctx):
         ctx.count("trees_of_depth_%d" % d, c)
     m = ctx.scale(20000, 2500000)
     for _ in range(m):
-        tree = gen_cql_tree(rng, tt, rng.choice([1, 2, 3, 4, 4]), exotic=rng.random() < 0.05)
+        tree = gen_cql_tree(rng, tt, rng.choice([1, 2, 3, 4, 4, 4]), exotic=rng.random() < 0.05, top=True)
         if tree_depth(tree) > 4:
             continue
         check_cql_string(ctx, rng, T, tt, tree)
